@@ -73,12 +73,16 @@ CHECKS = {
             "quick": [dict(harness="c06_parallel", variant="plain", runs=20000, tl=120),
                       # data races between iterations of the OpenMP loop: real threads under ThreadSanitizer, single inline rank
                       dict(harness="c06_omp_tsan", variant="tsan", runs=480, tl=60),
+                      # the same real-thread teams, uninstrumented, under valgrind's helgrind: binary-level, so it also sees the
+                      # stores g++'s ThreadSanitizer pass leaves out (a store that is the left-hand side of a call statement)
+                      dict(harness="c06_omp_tsan", variant="thr", valgrind="helgrind", runs=320, tl=90, watchdog=3000),
                       # the other documented build flavour: complex matrix elements (hoppings carry a phase in this build)
                       dict(harness="c06_parallel", variant="plain", complex=True, runs=4000, tl=60)],
             "thorough": [dict(harness="c06_parallel", variant="plain", runs=400000, tl=1500, cfg="big=1"),
                          dict(harness="c06_parallel", variant="san", runs=40000, tl=500),
                          dict(harness="c06_parallel", variant="plain", complex=True, runs=40000, tl=400, cfg="big=1"),
-                         dict(harness="c06_omp_tsan", variant="tsan", runs=30000, tl=600)],
+                         dict(harness="c06_omp_tsan", variant="tsan", runs=30000, tl=600),
+                         dict(harness="c06_omp_tsan", variant="thr", valgrind="helgrind", runs=12000, tl=600, watchdog=3000)],
         },
         "is_violation": any_nonok,
         "workload_keys": ["G", "calls", "hrep", "quads", "freqs", "P", "model", "wf", "nosym", "beta", "mp"],
@@ -155,7 +159,7 @@ def do_replay(pid, path):
     built = {}
     part = dict(harness=rp["harness"], variant=rp["variant"], complex=rp.get("complex", False))
     exe = exe_for(part, built)
-    r = vlib.run_single(exe, rp["seed"], rp["cfg"], choices=rp["choices"], want_trace=True, wrapper=vlib.VALGRIND if rp.get("valgrind") else None)
+    r = vlib.run_single(exe, rp["seed"], rp["cfg"], choices=rp["choices"], want_trace=True, wrapper=vlib.wrapper_for(rp.get("valgrind")))
     print("replay: harness=%s variant=%s seed=%s" % (rp["harness"], rp["variant"], rp["seed"]))
     print("cfg: %s" % rp["cfg"])
     print("expected: %s | got: %s %s" % (rp["expect"]["verdict"], r["verdict"], r.get("detail", "")))
@@ -248,7 +252,7 @@ def main():
             agg.add(r, pi, part)
             if sat_rows is not None: sat_rows.append((r["seed"], r.get("ohash", r["hash"]), r.get("phash", r["hash"]), r.get("sig", "")))
         _, crashes = vlib.run_batch(exe, seed0, nruns, part["tl"] * max(1.0, scale), cfg=part.get("cfg", ""), extra=["--watchdog", str(watchdog_of(part))],
-                                    wrapper=vlib.VALGRIND if part.get("valgrind") else None, on_result=on_result, keep=False)
+                                    wrapper=vlib.wrapper_for(part.get("valgrind")), on_result=on_result, keep=False)
         for c in crashes: agg.add_crash(c, pi)
         wall = time.time() - tb
         nres = agg.n - n_before
@@ -307,7 +311,7 @@ def main():
         """minimise, gate (two fresh-process replays must agree), write the replay file; returns False if the replay is unstable"""
         nonlocal new_violations
         exe = exe_for(part, built)
-        vlib.CURRENT_WRAPPER = vlib.VALGRIND if part.get("valgrind") else None
+        vlib.CURRENT_WRAPPER = vlib.wrapper_for(part.get("valgrind"))
         first_for_min = dict(first); first_for_min["verdict"] = cls
         cfg_s, choices, best, nre = vlib.minimise(exe, seed, first_for_min, spec["workload_keys"], classify=classify,
                                                   budget_runs=300 if tier == "quick" else 800, budget_s=90 if tier == "quick" else 300, log=log)
@@ -319,7 +323,7 @@ def main():
             return False
         k = vlib.match_known(known, cls, a.get("cfg", cfg_s), a.get("detail", ""))
         vlib.CURRENT_WRAPPER = None
-        rp = dict(property=pid, harness=part["harness"], variant=part["variant"], complex=bool(part.get("complex")), valgrind=bool(part.get("valgrind")), seed=seed, cfg=a.get("cfg") or cfg_s,
+        rp = dict(property=pid, harness=part["harness"], variant=part["variant"], complex=bool(part.get("complex")), valgrind=part.get("valgrind") or False, seed=seed, cfg=a.get("cfg") or cfg_s,
                   choices=choices, expect=dict(verdict=cls, hash=a["hash"]), detail=a.get("detail", "") or "; ".join(a.get("ubsan", [])[:2]), ubsan=a.get("ubsan", []),
                   original=dict(seed=seed, cfg=first.get("cfg", ""), n_choices=len(first.get("choices") or [])), occurrences_in_batch=len(rs),
                   trace=a.get("trace", "")[-20000:], stderr=a.get("stderr", "")[-4000:] if cls != "ok" else "")
@@ -341,7 +345,7 @@ def main():
         done = False
         for r0 in cands[:8]:
             # gate 1: the failing seed must show the same class when executed alone in a fresh process
-            first = vlib.run_single(exe, r0["seed"], cfg=part.get("cfg") or None, want_choices=True, wrapper=vlib.VALGRIND if part.get("valgrind") else None)
+            first = vlib.run_single(exe, r0["seed"], cfg=part.get("cfg") or None, want_choices=True, wrapper=vlib.wrapper_for(part.get("valgrind")))
             if cls_of(first) != cls:
                 log("seed %s: class changed on re-execution in a fresh process (%s -> %s); trying another seed of this class" % (r0["seed"], cls, cls_of(first)))
                 continue
@@ -399,7 +403,7 @@ def main():
         ),
         assumptions=[
             "SimMPI models MPI-3.1 semantics as used through boost::mpi 1.83 (posted-order matching, non-overtaking, eager/rendezvous, collectives with legal liberties); boost::mpi/Open MPI themselves are not under test",
-            "ranks interact only through MPI calls, so interleaving at MPI-call granularity is complete for the real system; OpenMP logical threads are serialised at chunk granularity (data races inside a loop body are out of reach)",
+            "ranks interact only through MPI calls, so interleaving at MPI-call granularity is complete for the real system; OpenMP logical threads are serialised fibers (seeded order, chunk granularity, in-region barriers) in the deterministic parts; data races inside a loop body are covered only by the real-thread parts of C06 (ThreadSanitizer and helgrind, team of real threads on one inline rank)",
             "sampling, not proof: a clean batch is evidence only; model family and sizes as in DESIGN.md",
             "message loss/duplication/corruption, rank crashes and partitions are NOT injected: the MPI contract excludes them and pomerol has no handling to verify",
         ],
